@@ -43,6 +43,17 @@ pub fn addr(hrp: &str, seed: &str, n: usize) -> String {
     bech32::encode(hrp, h[..n].to_vec().to_base32(), bech32::Variant::Bech32).unwrap()
 }
 
+/// The ibc-hooks intermediate account of (channel, sender) under `prefix`, computed here from the specification
+/// (sha256(sha256("ibc-wasm-hook-intermediary") ++ "<channel>/<sender>"), bech32) and NOT with the contract's own helper:
+/// the simulated chain must not inherit a slip in the code under test.
+pub fn hook_account(channel: &str, sender: &str, prefix: &str) -> String {
+    let th = Sha256::digest(b"ibc-wasm-hook-intermediary");
+    let mut h = Sha256::new();
+    h.update(th);
+    h.update(format!("{channel}/{sender}").as_bytes());
+    bech32::encode(prefix, h.finalize().to_vec().to_base32(), bech32::Variant::Bech32).unwrap_or_default()
+}
+
 pub const D: &str = "ibc/C3E53D20BC7A4CC993B17C7971F8ECD06A433C10B6A96F4C4C3714F0624C56DA";
 pub const T0: u64 = 1_700_000_000_000_000_000;
 
@@ -73,7 +84,7 @@ impl Setup {
         format!("factory/{}/{}", self.me, self.sub)
     }
     pub fn hook(&self, native_sender: &str) -> String {
-        staking::helpers::derive_intermediate_sender(&self.channel, native_sender, CHAIN_PREFIX).unwrap()
+        hook_account(&self.channel, native_sender, CHAIN_PREFIX)
     }
     pub fn inst_line(&self) -> String {
         format!(
@@ -140,8 +151,9 @@ pub fn random_setup_x(r: &mut Rng, backend: &str, tag: u64, extreme: bool) -> Se
         backend: backend.to_string(),
         me: addr(CHAIN_PREFIX, &format!("contract{tag}"), 32),
         admin: addr(CHAIN_PREFIX, "admin", 20),
-        staker: addr(&np, "staker", 20),
-        collector: addr(&np, "collector", 20),
+        // now and then an operator address in the all-uppercase spelling (valid bech32, stored and hashed verbatim)
+        staker: if r.chance(6) { addr(&np, "staker", 20).to_uppercase() } else { addr(&np, "staker", 20) },
+        collector: if r.chance(6) { addr(&np, "collector", 20).to_uppercase() } else { addr(&np, "collector", 20) },
         validators: (0..1 + r.below(3)).map(|i| addr(&vp, &format!("val{i}"), 20)).collect(),
         native_prefix: np.clone(),
         val_prefix: vp,
@@ -431,7 +443,18 @@ impl WorldGen {
                     _ => "-".to_string(),
                 };
                 let txi = self.txi();
-                self.w.exec(txi, &u, vec![Coin::new(a, D)], &format!("stake {} {} {}", mint_to, flag, exp));
+                let mut funds = vec![Coin::new(a, D)];
+                let have_lst = self.w.chain.bal(&u, &lst);
+                if have_lst > 0 && self.r.chance(6) {
+                    // a second coin attached to the stake (the sender's own LST): the whole call must be refused
+                    let extra = Coin::new(1 + self.r.u128_upto(have_lst.min(500)), lst.clone());
+                    if self.r.chance(50) {
+                        funds.push(extra);
+                    } else {
+                        funds.insert(0, extra);
+                    }
+                }
+                self.w.exec(txi, &u, funds, &format!("stake {} {} {}", mint_to, flag, exp));
             }
             28..=37 => {
                 // unstake
@@ -851,8 +874,8 @@ impl WorldGen {
         let ch = self.s.channel.clone();
         let staker = v.cfg.native_chain_config.staker_address.to_string();
         let collector = v.cfg.native_chain_config.reward_collector_address.to_string();
-        let hook_s = staking::helpers::derive_intermediate_sender(&ch, &staker, CHAIN_PREFIX).unwrap_or_default();
-        let hook_c = staking::helpers::derive_intermediate_sender(&ch, &collector, CHAIN_PREFIX).unwrap_or_default();
+        let hook_s = hook_account(&ch, &staker, CHAIN_PREFIX);
+        let hook_c = hook_account(&ch, &collector, CHAIN_PREFIX);
         let nominee = v.st.pending_owner.as_ref().map(|a| a.to_string()).unwrap_or_else(|| self.s.users[0].clone());
         let monitor = v.cfg.monitors.first().map(|a| a.to_string()).unwrap_or_else(|| addr(CHAIN_PREFIX, "monitor0", 20));
         let last_monitor = v.cfg.monitors.last().map(|a| a.to_string()).unwrap_or_else(|| addr(CHAIN_PREFIX, "monitor1", 20));
@@ -882,6 +905,10 @@ impl WorldGen {
         let d = |a: u128| format!("[{}:{}]", hs(D), a);
         let mut variants: Vec<(String, String)> = vec![
             (d(min + 1000), "stake - - -".to_string()),
+            // a stake is paid with exactly one coin, the staked asset: anything else attached is refused
+            (format!("[{}:{},{}:{}]", hs(D), min + 1000, hs(&lst), 5), "stake - - -".to_string()),
+            (format!("[{}:{},{}:{}]", hs("uosmo"), 5, hs(D), min + 1000), "stake - - -".to_string()),
+            (format!("[{}:{}]", hs(&lst), min + 1000), "stake - - -".to_string()),
             (format!("[{}:{}]", hs(&lst), 10), "unstake".to_string()),
             ("[]".to_string(), "submit".to_string()),
             ("[]".to_string(), format!("addval {}", hs(&newval))),
@@ -970,7 +997,7 @@ impl WorldGen {
         let admin = v.admin.clone().unwrap_or_default();
         let ch = self.s.channel.clone();
         let collector = v.cfg.native_chain_config.reward_collector_address.to_string();
-        let hook_c = staking::helpers::derive_intermediate_sender(&ch, &collector, CHAIN_PREFIX).unwrap_or_default();
+        let hook_c = hook_account(&ch, &collector, CHAIN_PREFIX);
         let t = self.w.now_ns;
         let n = 1 + self.r.u128_upto(1_000_000);
         let a = 100_000 + self.r.u128_upto(1_000_000);
